@@ -25,7 +25,7 @@ def run_children(ctx, ids):
                    PYTHONPATH=REPO + os.pathsep + VERIF)
         cmd = [sys.executable, "-m", "rv.c17child", str(ctx.seed)] + [str(i) for i in ids]
         try:
-            r = subprocess.run(cmd, cwd=VERIF, env=env, capture_output=True, text=True, timeout=1800)
+            r = subprocess.run(cmd, cwd=VERIF, env=env, capture_output=True, text=True, timeout=240 if ctx.tier == "quick" else 1800)
         except subprocess.TimeoutExpired:
             ctx.count("child_failed")
             continue
